@@ -350,3 +350,7 @@ def run(ctx):
     ctx.guarded(r, XS.check_domain_guards)
     ctx.guarded(r, XC.check_load_imm, "interval")
     ctx.guarded(r, XC.check_fixed_area, "interval")
+    from .. import x86sem as XS86
+
+    r = ctx.rule("R3i", "x86_64 interval add / sub / neg / copy: bounds are the interval meaning of the opcode (symbolic lanes)", 4)
+    ctx.guarded(r, XS86.check_lane_semantics, "interval")
